@@ -214,3 +214,50 @@ Proof.
     change (2 ^ 63)%Z with 9223372036854775808%Z.
     split_ifs; try lia; try reflexivity. f_equal. lia.
 Qed.
+
+(** ** The three-valued ParseUint *)
+Lemma pu3_ok s : forall acc v, pu_loop acc s = Some v -> pu3 acc s = PuOk v.
+Proof.
+  induction s as [|c r IH]; intros acc v H; cbn [pu_loop pu3] in *; [congruence|].
+  destruct (negb (is_digit c)); [discriminate|].
+  destruct (cutoff64 <=? acc); [discriminate|].
+  destruct (2 ^ 64 <=? acc * 10 + (c - 48)); [discriminate|]. apply IH, H.
+Qed.
+
+Lemma pu3_range s : forall acc,
+  forallb is_digit s = true -> pu_loop acc s = None -> pu3 acc s = PuRange.
+Proof.
+  induction s as [|c r IH]; intros acc Hd H; cbn [pu_loop pu3 forallb] in *; [discriminate|].
+  apply andb_true_iff in Hd as [Hc Hd]. rewrite Hc in *. cbn [negb] in *.
+  destruct (cutoff64 <=? acc); [reflexivity|].
+  destruct (2 ^ 64 <=? acc * 10 + (c - 48)); [reflexivity|]. apply IH; assumption.
+Qed.
+
+Lemma pu3_app l : forall acc r,
+  pu3 acc (l ++ r) = match pu3 acc l with PuOk a => pu3 a r | e => e end.
+Proof.
+  induction l as [|c l IH]; intros acc r; cbn [app pu3]; [reflexivity|].
+  destruct (negb (is_digit c)); [reflexivity|].
+  destruct (cutoff64 <=? acc); [reflexivity|].
+  destruct (2 ^ 64 <=? acc * 10 + (c - 48)); [reflexivity|]. apply IH.
+Qed.
+
+Lemma parse_uint3_dec n :
+  parse_uint3 (dec n) = if n <? 2 ^ 64 then PuOk n else PuRange.
+Proof.
+  pose proof (parse_uint_dec n) as H. unfold parse_uint, parse_uint3 in *.
+  destruct (dec n) as [|c l] eqn:E; [exfalso; eapply dec_nonempty; eauto|].
+  rewrite <- E in *. destruct (n <? 2 ^ 64).
+  - apply pu3_ok, H.
+  - apply pu3_range; [apply dec_digits|exact H].
+Qed.
+
+(** digits of a number below 2^64 followed by a non-digit: a syntax error *)
+Lemma parse_uint3_dec_then n c r :
+  n < 2 ^ 64 -> is_digit c = false -> parse_uint3 (dec n ++ c :: r) = PuSyntax.
+Proof.
+  intros Hn Hc. pose proof (parse_uint3_dec n) as H. unfold parse_uint3 in *.
+  destruct (dec n) as [|c0 l] eqn:E; [exfalso; eapply dec_nonempty; eauto|].
+  cbn [app]. change (c0 :: l ++ c :: r) with ((c0 :: l) ++ c :: r). rewrite pu3_app, H.
+  destruct (n <? 2 ^ 64) eqn:E1; [|lia]. cbn [pu3]. rewrite Hc. reflexivity.
+Qed.
